@@ -74,6 +74,19 @@ def run(c, index, tier):
     argsA, kwA = spec.fit_args(A, cfg)
     argsB, kwB = spec.fit_args(B, cfg)
 
+    # ---- before anything else happened in this run: a first instance fitted on B
+    # (the reference for state kept outside the instances: class attributes,
+    # module-level memos -- such state would reach *both* sides of O1)
+    f0 = spec.build(cfg)
+    _env(c, g)
+    c.ch.start_tape("r")
+    ok0, r0 = U.sut(c, "pristine.fit(B)", f0.fit, *argsB, **kwB)
+    tape = c.ch.stop_tape("r")
+    want0 = None
+    if ok0:
+        _env(c, g)
+        want0 = _observe(c, spec, f0, cfg, Xp)
+
     # ---- history on one instance: fit(A) [predict] fit(B)
     x = spec.build(cfg)
     _env(c, g)
@@ -85,9 +98,11 @@ def run(c, index, tier):
         _env(c, g)
         R.observe(c, spec, x, cfg, A.Xp)
     _env(c, g)
-    c.ch.start_tape("r")
-    ok, r = U.sut(c, "fit(B)", x.fit, *argsB, **kwB)
-    tape = c.ch.stop_tape("r")
+    c.ch.play_tape("r", tape)
+    try:
+        ok, r = U.sut(c, "fit(B)", x.fit, *argsB, **kwB)
+    finally:
+        c.ch.stop_play("r")
     first_failed = not ok
     if ok:
         _env(c, g)
@@ -129,6 +144,19 @@ def run(c, index, tier):
             (bad[0],),
             "fit(A);fit(B) differs from fresh.fit(B) under the same seed and entropy (differing: %r)" % (bad,),
         )
+
+    if want0 is not None:
+        bad = R.same_outputs(spec, want0, want, exact=True)
+        if bad:
+            _viol(
+                c,
+                seen,
+                spec,
+                "fresh-instance-depends-on-other-instances",
+                (bad[0],),
+                "a fresh estimator fitted on B after another instance went through fit(A);fit(B) differs from a fresh estimator fitted on B before that, under the same seed and entropy (differing: %r): something outside the instances is kept" % (bad,),
+            )
+        c.probe("pristine_reference_compared")
 
     # ---- O2: same global seed, other OS entropy => same model
     n_seam_before = sum(c.seam_calls.values())
